@@ -1,7 +1,7 @@
 """C03 - bounded exploration of the real controller (see checks/ctrlx.py) plus proved per-function obligations."""
 from checks import common, ctrl_common
 
-PROVED_TARGETS = ['cascade.scheduler.core:has_awaitable', 'cascade.scheduler.core:has_computable']
+PROVED_TARGETS = ['cascade.scheduler.core:has_awaitable', 'cascade.scheduler.core:has_computable', 'cascade.controller.impl:run']
 
 
 def run(tier, seed):
